@@ -416,15 +416,21 @@ func (x *gen) node3(depth int) *Node {
 		return &Node{Op: "revolve", K: []*Node{x.profile(depth - 1)}}
 	case "revolvetheta":
 		var th float64
-		switch x.intr("thk", 0, 4) {
+		switch x.intr("thk", 0, 6) {
 		case 0:
 			th = x.unit("th") * 2 * math.Pi
+			if th <= 0 {
+				th = 0.1
+			}
+		case 5:
+			// the angle is documented as normalised: 0 and a whole turn ask for the full revolution
+			th = []float64{0, 2 * math.Pi, 4 * math.Pi}[x.intr("full", 0, 2)]
+		case 6:
+			// more than a turn: normalised to the remainder
+			th = 2*math.Pi + (0.05+0.9*x.unit("th"))*2*math.Pi
 		default:
 			q := float64(x.intr("quad", 1, 3)) * math.Pi / 2
 			th = q + (x.unit("dth")-0.5)*0.2
-		}
-		if th <= 0 {
-			th = 0.1
 		}
 		return &Node{Op: "revolvetheta", K: []*Node{x.profile(depth - 1)}, P: []float64{th}}
 	case "multi3":
@@ -507,6 +513,20 @@ var ops2Lip = []string{"leaf", "leaf", "union2", "union2", "diff2", "isect2", "c
 var ops2Solid = []string{"leaf", "leaf", "union2", "xform2", "xform2", "scale2", "offset2", "elong2", "array2", "rotcopy2", "rotunion2"}
 var ops2Full = append(append([]string{}, ops2Lip...), "nuscale2", "slice2", "cache2", "center2", "centerscale2", "multi2", "lineof2")
 
+// union2Operand draws a program that ends up as an operand of a library 2D union (Union2D itself,
+// Multi2D, LineOf2D, the mirror-symmetrised operand of RotateCopy2D): no blends below it, and with
+// SolidUnion2 no difference / intersection / cut either.
+func (x *gen) union2Operand(depth int) *Node {
+	was, wasIn := x.o.solid, x.o.inUnion2
+	if x.o.SolidUnion2 {
+		x.o.solid = true
+	}
+	x.o.inUnion2 = true
+	k := x.node2(depth)
+	x.o.solid, x.o.inUnion2 = was, wasIn
+	return k
+}
+
 func (x *gen) node2(depth int) *Node {
 	if depth <= 0 {
 		return x.leaf2()
@@ -526,15 +546,9 @@ func (x *gen) node2(depth int) *Node {
 	case "union2":
 		n := x.intr("n", 2, 4)
 		ks := make([]*Node, n)
-		was, wasIn := x.o.solid, x.o.inUnion2
-		if x.o.SolidUnion2 {
-			x.o.solid = true
-		}
-		x.o.inUnion2 = true
 		for i := range ks {
-			ks[i] = x.node2(depth - 1)
+			ks[i] = x.union2Operand(depth - 1)
 		}
-		x.o.solid, x.o.inUnion2 = was, wasIn
 		s, p := x.blendMin()
 		return &Node{Op: "union2", K: ks, S: s, P: p}
 	case "diff2", "isect2":
@@ -580,10 +594,7 @@ func (x *gen) node2(depth int) *Node {
 		return &Node{Op: "array2", K: []*Node{x.node2(depth - 1)}, I: []int{x.intr("nx", 1, 4), x.intr("ny", 1, 3)}, P: []float64{step(), step()}}
 	case "rotcopy2":
 		n := x.intr("n", 1, 12)
-		wasIn := x.o.inUnion2
-		x.o.inUnion2 = true // the operand is wrapped in a 2D union with its mirror image below
-		k := x.node2(depth - 1)
-		x.o.inUnion2 = wasIn
+		k := x.union2Operand(depth - 1) // the operand is wrapped in a 2D union with its mirror image below
 		k = &Node{Op: "xform2", K: []*Node{k}, I: []int{0}, P: []float64{0, x.length("ring", 0.1, 2), 0}}
 		if x.o.Grammar == Lipschitz || x.intr("sym", 0, 1) == 1 {
 			m := &Node{Op: "xform2", K: []*Node{k}, I: []int{1}, P: []float64{0, 0, 0}}
@@ -606,17 +617,11 @@ func (x *gen) node2(depth int) *Node {
 		for i := 0; i < np; i++ {
 			ps = append(ps, x.coord("mx", 2), x.coord("my", 2))
 		}
-		wasIn := x.o.inUnion2
-		x.o.inUnion2 = true
-		k := x.node2(depth - 1)
-		x.o.inUnion2 = wasIn
+		k := x.union2Operand(depth - 1)
 		return &Node{Op: "multi2", K: []*Node{k}, P: ps}
 	case "lineof2":
 		pat := rapid.StringMatching("[x.]{0,3}x[x.]{0,3}").Draw(x.t, x.lbl("pattern"))
-		wasIn := x.o.inUnion2
-		x.o.inUnion2 = true
-		k := x.node2(depth - 1)
-		x.o.inUnion2 = wasIn
+		k := x.union2Operand(depth - 1)
 		return &Node{Op: "lineof2", K: []*Node{k}, S: pat, P: []float64{x.coord("p0x", 2), x.coord("p0y", 2), x.coord("p1x", 2), x.coord("p1y", 2)}}
 	case "cache2":
 		return &Node{Op: "cache2", K: []*Node{x.node2(depth - 1)}}
@@ -673,6 +678,10 @@ func GenExact3(t *rapid.T, S float64, depth int) *Node {
 		}
 		prof := &Node{Op: "xform2", K: []*Node{leaf}, I: []int{0}, P: []float64{x.angle("pang"), px, x.coord("py", 1)}}
 		n = &Node{Op: "revolve", K: []*Node{prof}}
+		if x.intr("via-theta", 0, 2) == 0 {
+			// the same full revolution asked for through RevolveTheta3D (angle 0 or whole turns)
+			n = &Node{Op: "revolvetheta", K: []*Node{prof}, P: []float64{[]float64{0, 2 * math.Pi, 4 * math.Pi}[x.intr("full", 0, 2)]}}
+		}
 	} else {
 		n = x.leaf3()
 	}
